@@ -225,15 +225,18 @@ def notCsStop (c : Char) : Bool := !isCsStop c
 
 def stripPrefix (p s : Str) : Option Str := if p.isPrefixOf s then some (s.drop p.length) else none
 
+/-- `"?` -/
+def dropQuote (s : Str) : Str :=
+  match s with
+  | '"' :: x => x
+  | _ => s
+
 /-- `(?:; *charset="?([^";, ]*)"?)?` : (group 2, what is left) -/
 def takeCharset (s : Str) : Str × Str :=
   match s with
   | ';' :: r =>
     match stripPrefix "charset=".toList (dropSpaces r) with
-    | some r1 =>
-      let r2 := match r1 with | '"' :: x => x | _ => r1
-      let r3 := r2.dropWhile notCsStop
-      (r2.takeWhile notCsStop, match r3 with | '"' :: x => x | _ => r3)
+    | some r1 => ((dropQuote r1).takeWhile notCsStop, dropQuote ((dropQuote r1).dropWhile notCsStop))
     | none => ([], s)
   | _ => ([], s)
 
@@ -332,6 +335,33 @@ def sendExportResponse (msgid methodname : Str) (err : Option (Nat × Str)) : X 
 /-- invalid_method(): do_OPTIONS, do_HEAD, do_GET, do_PUT, do_PATCH, do_DELETE, do_TRACE, do_CONNECT, do_M_POST -/
 def invalidMethod (cfg : Cfg) : X Response :=
   sendHttpError cfg 405 none none [("Allow".toList, "POST".toList)]
+
+/-! ## the response on the wire (BaseHTTPRequestHandler.send_response / send_header / end_headers) -/
+
+def crlf : Str := ['\r', '\n']
+
+def headerLine (kv : Str × Str) : Str := kv.1 ++ ':' :: ' ' :: kv.2
+
+/-- the lines http.server buffers: status line, Server, Date (values from outside), then pywbem's headers -/
+def headLines (server date : Str) (r : Response) : List Str :=
+  ("HTTP/1.0 ".toList ++ natStr r.status ++ ' ' :: r.reason) ::
+    headerLine ("Server".toList, server) :: headerLine ("Date".toList, date) :: r.headers.map headerLine
+
+def joinCRLF : List Str → Str
+  | [] => []
+  | l :: ls => l ++ crlf ++ joinCRLF ls
+
+/-- octets (as Latin-1 text) written to the socket: header section, empty line, body -/
+def wireHead (server date : Str) (r : Response) : Str := joinCRLF (headLines server date r) ++ crlf
+
+/-- what a receiver does with a header section: cut it at every CR LF
+    (`cr`: the previous character was a CR not yet accounted for; `acc`: current line, reversed) -/
+def splitCRLF : Bool → Str → Str → List Str
+  | cr, acc, [] => [(if cr then '\r' :: acc else acc).reverse]
+  | cr, acc, c :: rest =>
+    if cr && c == '\n' then acc.reverse :: splitCRLF false [] rest
+    else if c == '\r' then splitCRLF true (if cr then '\r' :: acc else acc) rest
+    else splitCRLF false (c :: (if cr then '\r' :: acc else acc)) rest
 
 /-! ## parse_export_request -/
 
